@@ -146,3 +146,96 @@ func genFNZW(c *Ctx) {
 		}
 	}
 }
+
+// `fn.sortmoves` (work package gen7, task 3): Generated/FuncsSort.lean - `moveGenerator.sortMoves` with `sort.Sort` as a
+// permutation ORACLE.  The Go op runs the REAL `sortMoves` (harness/export/ai__genfn7.go) and prints the resulting list with the
+// history value of every move; the oracle token of the line is that real result (re-checked by the Go op: `oracle-mismatch`).
+// The Lean side runs the regenerated definition, hands the oracle token out as `sort.Sort`'s answer after RE-CHECKING that it is a
+// permutation of `ms` whose REGENERATED values are non-increasing (`oracle-mismatch` otherwise).  Generator: FNSORT (C04, C05, C16).
+//
+//	fn.sortmoves <history> <ms: -|moves> <buffer mode 0..3> <fill> <oracle: -|moves>   ->   <ms> <values: -|v,v,..>   |   oracle-mismatch
+
+func valsTok(h map[tak.Move]int, ms []tak.Move) string {
+	if len(ms) == 0 {
+		return "-"
+	}
+	var out []string
+	for _, m := range ms {
+		out = append(out, fmt.Sprint(h[m]))
+	}
+	return strings.Join(out, ",")
+}
+
+func init() {
+	opTable["fn.sortmoves"] = func(s *Session, a []string) string {
+		h := parseHist(a[0])
+		res := ai.VerifSortMovesBuf(h, parseMvs0(a[1]), atoi(a[2]), atoi(a[3]))
+		if mvsTok0(res, false) != a[4] {
+			return "oracle-mismatch"
+		}
+		return mvsTok0(res, false) + " " + valsTok(h, res)
+	}
+	genTable["FNSORT"] = genFNSORT
+}
+
+func genFNSORT(c *Ctx) {
+	r := c.R
+	for k := 0; k < c.Scale(160, 16000); k++ {
+		p := randomPosition(r)
+		if p == nil {
+			continue
+		}
+		am := p.AllMoves(nil)
+		var ms []tak.Move
+		switch r.Intn(6) {
+		case 0: // empty
+		case 1: // one move
+			if len(am) > 0 {
+				ms = []tak.Move{am[r.Intn(len(am))]}
+			}
+		case 2: // the whole list (often > 12: beyond sort.Sort's insertion-sort range)
+			ms = am
+		default:
+			for _, m := range am {
+				if r.Chance(1, 3) {
+					ms = append(ms, m)
+				}
+			}
+		}
+		if len(ms) > 40 {
+			ms = ms[:40]
+		}
+		if len(ms) > 1 && r.Chance(1, 5) {
+			ms = append(ms, ms[0]) // a duplicated move
+		}
+		h := map[tak.Move]int{}
+		vals := []int{1, 2, 3, 1 << 12, 1 << 30}
+		if r.Chance(1, 2) {
+			vals = []int{5, 5, 5, 9} // many equal values
+		}
+		for _, m := range ms {
+			if r.Chance(2, 3) { // the others are absent from the map: value 0
+				h[m] = vals[r.Intn(len(vals))]
+			}
+		}
+		for i := r.Intn(3); i > 0; i-- {
+			h[randMv(r)] = 7 // keys that are not in the list
+		}
+		mode, fill := r.Intn(4), []int{-1, 77, 1 << 40}[r.Intn(3)]
+		res := ai.VerifSortMovesBuf(h, ms, mode, fill)
+		c.Count(fmt.Sprintf("sort n=%s mode=%d", bucket(len(ms)), mode))
+		c.Emit(fmt.Sprintf("fn.sortmoves %s %s %d %d %s", histTok(h), mvsTok0(ms, false), mode, fill, mvsTok0(res, false)))
+	}
+}
+
+func bucket(n int) string {
+	switch {
+	case n == 0:
+		return "0"
+	case n == 1:
+		return "1"
+	case n <= 12:
+		return "2-12"
+	}
+	return ">12"
+}
